@@ -54,7 +54,7 @@ Definition step (fixed : bool) (s : bw) (e : ev) : bw * nat :=
           match b_fut s with
           | FPending => (upd FRes CWaiting (b_sttimer s) (b_wtimer s)
                              (match b_w s with Suspended => WakeNormal | w => w end), 0)
-          | _ => (s, 1)                  (* set_result on a done future: InvalidStateError in the loop *)
+          | _ => (s, if fixed then 0 else 1)   (* a repeat: ignored; before the repair set_result on a done future put InvalidStateError in the loop *)
           end
       | _ => (s, 0)
       end
@@ -104,3 +104,24 @@ Definition instant (fixed : bool) (acc : bw * nat) (evs : list ev) : bw * nat :=
   let '(s', n) := steps fixed (fst acc) evs in (wake fixed s', snd acc + n).
 Definition run (fixed : bool) (has_state_timer : bool) (instants : list (list ev)) : bw * nat :=
   fold_left (instant fixed) instants (bw0 has_state_timer, 0).
+
+(* ---- which handshake phase a packet belongs to (BindStateBase.is_phase) ---- *)
+Inductive pverb := PI | PW | PRQ | PRP.
+Inductive pdst := DSelf | DAll | DOther.        (* the destination: the sender itself, the all-devices address 63:262142, another device *)
+Inductive pcode := K1FC9 | K10E0 | KOther.
+Inductive phase := Tender | Accept | Affirm | Ratify.
+
+Definition is_phase (c : pcode) (v : pverb) (d : pdst) (p : phase) : bool :=
+  match p with
+  | Ratify => match v, c with PI, K10E0 => true | _, _ => false end
+  | _ =>
+    match c with
+    | K1FC9 =>
+      match p with
+      | Tender => match v, d with PI, DSelf | PI, DAll => true | _, _ => false end
+      | Accept => match v, d with PW, DAll | PW, DOther => true | _, _ => false end
+      | _ => match v, d with PI, DOther => true | _, _ => false end
+      end
+    | _ => false
+    end
+  end.
